@@ -159,3 +159,76 @@ def run(ctx, quick):
                                              "direct": sum(1 for c_ in cases if c_["src"] == "direct"),
                                              "steps": sum(len(c_["steps"]) for c_ in cases)}
     return len(cases)
+
+
+# --------------------------------------------------------------------------------------------------------------
+# NetTopo.tla / NetTopoTrace.tla: the topology tables of Network (addNode / addEdge and the adjacency getters)
+# --------------------------------------------------------------------------------------------------------------
+def topo_histories(seed, count):
+    from tracklib.core.network import Network, Node, Edge
+    from tracklib.core.track import Track
+    from tracklib.core.obs import Obs
+    from tracklib.core.obs_coords import ENUCoords
+    from tracklib.core.obs_time import ObsTime
+    rnd = random.Random(seed)
+    out = []
+    for _ in range(count):
+        net = Network()
+        steps = []
+        nid = rnd.randrange(2, 6)
+        for k in range(rnd.randrange(1, 9)):
+            e = {"raised": False}
+            try:
+                with core.quiet():
+                    if rnd.random() < 0.25:
+                        v = rnd.randrange(1, nid + 1)
+                        e.update(op="node", v=v, id=0, s=0, t=0, o=0)
+                        net.addNode(Node(v, ENUCoords(float(v), 0.0, 0.0)))
+                    else:
+                        s_, t_, o_ = rnd.randrange(1, nid + 1), rnd.randrange(1, nid + 1), rnd.choice([-1, 0, 1])
+                        eid = 100 + k
+                        e.update(op="edge", v=0, id=eid, s=s_, t=t_, o=o_)
+                        geom = Track([Obs(ENUCoords(float(s_), 0.0, 0.0), ObsTime()), Obs(ENUCoords(float(t_), 1.0, 0.0), ObsTime())])
+                        ed = Edge(eid, geom)
+                        ed.orientation = o_
+                        ed.weight = 1.0
+                        net.addEdge(ed, Node(s_, ENUCoords(float(s_), 0.0, 0.0)), Node(t_, ENUCoords(float(t_), 1.0, 0.0)))
+                    ids = [int(x) for x in net.getNodesId()]
+                    e["nodes"] = ids
+                    e["edges"] = [int(x) for x in net.getEdgesId()]
+                    e["ends"] = [[int(net.getEdge(x).source.id), int(net.getEdge(x).target.id)] for x in net.getEdgesId()]
+                    for nm, fn in (("nextE", net.getNextEdges), ("prevE", net.getPrevEdges), ("nbgrE", net.getIncidentEdges),
+                                   ("nextN", net.getNextNodes), ("prevN", net.getPrevNodes), ("nbgrN", net.getAdjacentNodes)):
+                        e[nm] = [[v, [int(x) for x in fn(v)]] for v in ids]
+            except (Exception, SystemExit) as ex:
+                e["raised"] = True
+                e["exc"] = repr(ex)[:80]
+                for nm in ("nodes", "edges", "ends", "nextE", "prevE", "nbgrE", "nextN", "prevN", "nbgrN"):
+                    e.setdefault(nm, [])
+            steps.append(e)
+        out.append({"steps": steps})
+    return out
+
+
+def topo_job(args):
+    return topo_histories(*args)
+
+
+def run_topo(ctx, quick):
+    c = ctx.write_cfg("NT.cfg", "SPECIFICATION Spec\nCONSTANTS\n  NodeIds = {1, 2, 3}\n  MaxOps = %d\n  Mode = \"mc\"\nINVARIANT TablesAreDefinition\n"
+                      "CHECK_DEADLOCK FALSE\n" % (3 if quick else 4))
+    ctx.tlc_mc("NetTopo", c, label="network topology tables = definition from the edge list")
+    import multiprocessing as mp
+    cases = []
+    with mp.get_context("fork").Pool(16, initializer=core._pool_init, initargs=(None,)) as pool:
+        for r in pool.imap_unordered(topo_job, [(ctx.seed * 83 + k, 40 if quick else 600) for k in range(16)]):
+            cases.extend(r)
+    for k, c_ in enumerate(cases):
+        c_["id"] = k
+    rej = ctx.tlc_trace("NetTopoTrace", cases, chunks=16, label="network topology histories")
+    byid = {c_["id"]: c_ for c_ in cases}
+    for i, clause in sorted(rej.items()):
+        c_ = byid[i]
+        ctx.violation("network-topology/%s" % clause, "Network history %s: %s" %
+                      ([(s["op"], s["v"] or (s["id"], s["s"], s["t"], s["o"])) for s in c_["steps"]], clause), c_)
+    ctx.extra["network_topology_histories"] = len(cases)
